@@ -464,6 +464,28 @@ func c02Limits(a *ChildArgs) {
 			}
 		}
 	}
+	// every text entry point that parses or validates: an input one byte over the limit is refused with the limit
+	// error whatever it consists of (blanks only, blanks around a short statement, line breaks only)
+	overShapes := []shape{
+		{"only-blanks", func(n int) string { return strings.Repeat(" ", n) }},
+		{"only-newlines", func(n int) string { return strings.Repeat("\n", n) }},
+		{"leading-blanks", func(n int) string { return strings.Repeat(" ", n-8) + "SELECT 1" }},
+		{"padded-both-sides", func(n int) string { return strings.Repeat(" \t\r\n", (n-8)/8) + "SELECT 1" + strings.Repeat(" ", n-8-4*((n-8)/8)) }},
+	}
+	for _, sh := range overShapes {
+		s := sh.f(max + 1)
+		for _, ep := range TextEntryPoints() {
+			if strings.HasPrefix(ep.Name, "Scanner.") || strings.HasPrefix(ep.Name, "textsecurity.") || strings.HasPrefix(ep.Name, "linter.") || strings.Contains(ep.Name, "ParseMultiple") {
+				continue // text scanners and the linter document no size limit; the batch entry point is covered by its members
+			}
+			a.Rec.Count("evaluations", 1)
+			a.Rec.Distinct("cases", "size-all/"+sh.name+"/"+ep.Name)
+			if got := ep.F(s); got != "err:E1006" {
+				a.Rec.Viol(fmt.Sprintf("C02/size/%s/%s/over-limit-%s", sh.name, ep.Name, strings.TrimPrefix(got, "err:")), "input longer than the byte limit is rejected with the dedicated limit error by every entry point",
+					fmt.Sprintf("%d bytes (limit %d): %s", len(s), max, got), map[string]interface{}{"shape": sh.name, "bytes": len(s), "entry_point": ep.Name, "outcome": got})
+			}
+		}
+	}
 	// token limit
 	mt := tokenizer.MaxTokens
 	tokShapes := []shape{
